@@ -21,10 +21,11 @@ const bell = "\a"
 // Behaviour of the device for one physical command line of the change phase.
 type Behav struct {
 	Out  string `json:"out,omitempty"`  // output lines after the echo (each ends with \n)
-	Form string `json:"form,omitempty"` // "", "A" before echo + fresh prompt, "B" inside echo at Off, "C" after output + fresh prompt, "D" after output, no fresh prompt
+	Form string `json:"form,omitempty"` // "", "A" before echo + fresh prompt, "B" inside echo at Off, "C" after output + fresh prompt, "D" after output, no fresh prompt, "E" after the complete last line (Pad empty lines more before, Post after)
 	Off  int    `json:"off,omitempty"`  // for B: 0..len(cmd)
 	Msg  string `json:"msg,omitempty"`  // text between the `***` of the middle line
-	Pad  int    `json:"pad,omitempty"`  // additional empty lines in front of the banner (forms A, C); the test data uses 2
+	Pad  int    `json:"pad,omitempty"`  // additional empty lines in front of the banner (forms A, C, E); the test data uses 2
+	Post int    `json:"post,omitempty"` // form E: empty lines between the banner and the prompt (0: prompt directly after the banner)
 }
 
 // A dialogue case.
@@ -76,6 +77,10 @@ func replyFor(cmd string, b Behav) string {
 	case "D":
 		body := strings.TrimSuffix(cmd+"\n"+b.Out, "\n")
 		return body + bannerText(b.Msg) + "\n" + prompt
+	case "E":
+		// after the COMPLETE last line (its line end included): 3+Pad empty lines in front of BEL,
+		// Post empty lines behind the banner, then the prompt (no fresh prompt)
+		return cmd + "\n" + b.Out + pad + bannerText(b.Msg) + strings.Repeat("\n", b.Post) + prompt
 	}
 	return cmd + "\n" + b.Out + prompt
 }
